@@ -342,7 +342,7 @@ def check_c16(rng, n):
     return res
 
 
-def c16_realtime_cold(rng, res):
+def c16_realtime_cold(rng, res, props=("C16",)):
     """A "real time" cold tier (max_data_rate -1: the cold tier is an extension of the hot one, a move takes one
     step whatever the size) under every timestep unit: the marker is scaled with the other rates, and what the
     buffer does with it must not depend on the unit."""
@@ -361,8 +361,9 @@ def c16_realtime_cold(rng, res):
     try:
         h = runsim.SimHandle(spec)
     except Exception as e:   # noqa
-        res["violations"].append({"prop": "C16", "kind": "unit-scaling", "sig": "unit-scaling:realtime-cold-setup",
-                                  "detail": "configuration with a real-time cold tier refused under unit %s: %s" % (unit, errname(e)), "input": inp})
+        for pr in props:
+            res["violations"].append({"prop": pr, "kind": "unit-scaling", "sig": "unit-scaling:realtime-cold-setup",
+                                      "detail": "configuration with a real-time cold tier refused under unit %s: %s" % (unit, errname(e)), "input": inp})
         return
     try:
         buf, env = h.sim.buffer, h.env
@@ -395,8 +396,10 @@ def c16_realtime_cold(rng, res):
         if not bad:
             res["nontrivial"] += 1
         for b in bad:
-            res["violations"].append({"prop": "C16", "kind": "unit-scaling", "sig": "unit-scaling:realtime-cold",
-                                      "detail": "under unit %s: %s (with 'seconds' the move is one step and exact)" % (unit, b), "input": inp})
+            for pr in props:
+                res["violations"].append({"prop": pr, "kind": "unit-scaling" if pr == "C16" else "tier-move-real-time-cold",
+                                          "sig": "unit-scaling:realtime-cold" if pr == "C16" else "tier-move-real-time-cold",
+                                          "detail": "under unit %s: %s (with 'seconds' the move is one step and exact)" % (unit, b), "input": inp})
     finally:
         h.close()
 
@@ -596,6 +599,9 @@ def check_c18(rng, n):
                 c18_overlap_h2c(rng, res)
             if i % 3 == 2:
                 c18_into_partly_filled(rng, res)
+            if i % 5 == 0:
+                # a "real time" cold tier (max_data_rate -1), every unit, there and back
+                c16_realtime_cold(rng, res, props=("C18",))
     finally:
         drv.close()
     return res
@@ -924,6 +930,29 @@ def check_c11(rng, n, thorough=False):
             spec["cold"]["capacity"] = spec["hot"]["capacity"] + 5
             if spec["scheduling"]["kind"] == "batch":
                 spec["scheduling"] = {"kind": "batch", "partitions": 1, "min": 1, "split": None}
+        if i % 4 == 3:
+            # a pause while one observation is ingesting; later two observations fall due in the same step, each within
+            # the ingest-machine limit alone, not together: the scheduler's count of machines promised to ingest
+            # must survive the pause, or the second one is let in at once
+            base = spec["observations"][0]
+            wf = lambda: simgen.gen_workflow(rng, 3, [m["flops"] for m in spec["machines"]])
+            da = rng.randint(2, 4)
+            t1 = da + rng.randint(2, 4)
+            dc, dd = rng.choice([(1, 2), (2, 1), (2, 2)])
+            spec["observations"] = [
+                dict(base, name="a", start=0, duration=da, demand=1, ingest_demand=1, rate=1, workflow=wf()),
+                dict(base, name="c", start=t1, duration=rng.randint(1, 3), demand=1, ingest_demand=dc, rate=1, workflow=wf()),
+                dict(base, name="d", start=t1, duration=rng.randint(1, 3), demand=1, ingest_demand=dd, rate=1, workflow=wf())]
+            spec["machines"] = [{"id": "m%d" % j, "flops": 10, "bw": 2} for j in range(rng.randint(5, 8))]
+            spec["max_ingest"] = max(dc, dd) + rng.randint(0, min(dc, dd) - 1)
+            spec["total_arrays"] = max(spec["total_arrays"], 3)
+            spec["hot"]["capacity"], spec["hot"]["rate"] = 200, max(spec["hot"]["rate"], 3)
+            spec["cold"]["capacity"] = 205
+            spec["delay"] = None
+            if spec["scheduling"]["kind"] in ("dynamic", "greedy"):
+                spec["planning"], spec["scheduling"] = "batch", {"kind": "queue"}
+            if spec["scheduling"]["kind"] == "batch":
+                spec["scheduling"] = {"kind": "batch", "partitions": 1, "min": 1, "split": None}
         full0 = runsim.run_spec(spec, max_steps=300)
         if full0["exception"] or full0["nonterminated"]:
             continue
@@ -937,6 +966,11 @@ def check_c11(rng, n, thorough=False):
             for k_ in (o["start"] + o["duration"], o["start"] + o["duration"] + 1, o["start"] + o["duration"] + 2):
                 if 1 <= k_ < T and k_ not in ks and len(ks) < 16:
                     ks.append(k_)
+        # ... and inside every planned ingest window (what is promised to an ingest must survive a pause)
+        for o in spec["observations"]:
+            k_ = o["start"] + 1
+            if 1 <= k_ < T and k_ not in ks and len(ks) < 20:
+                ks.append(k_)
         ks = sorted(set(ks))
         for k in ks:
             segs = []
@@ -1099,10 +1133,15 @@ def check_c10(rng, n, hashseeds=("0", "1", "2")):
                 spec["delay"] = None
                 for o in spec["observations"]:
                     k = rng.randint(2, nm)
-                    nodes = [{"id": 0, "comp": 20}] + [{"id": j, "comp": 10 * rng.randint(1, 4)} for j in range(1, k + 1)]
+                    same = rng.random() < 0.5     # branches of equal length end in the same step: a tie for the join
+                    c0 = 10 * rng.randint(1, 4)
+                    nodes = [{"id": 0, "comp": 20}] + [{"id": j, "comp": c0 if same else 10 * rng.randint(1, 4)} for j in range(1, k + 1)]
                     nodes.append({"id": k + 1, "comp": 10})
                     vols = rng.sample([2, 4, 6, 8, 12, 16], k)
-                    edges = [[0, j, vols[j - 1]] for j in range(1, k + 1)] + [[j, k + 1, rng.choice([0, 2])] for j in range(1, k + 1)]
+                    if same:
+                        vols = [rng.choice([2, 4])] * k      # ... and the branches themselves start together
+                    back = rng.sample([0, 2, 4, 8, 12, 16], k)      # the join fetches a different volume from each branch
+                    edges = [[0, j, vols[j - 1]] for j in range(1, k + 1)] + [[j, k + 1, back[j - 1]] for j in range(1, k + 1)]
                     o["workflow"] = {"nodes": nodes, "edges": edges}
                     o["ingest_demand"] = min(o["ingest_demand"], spec["max_ingest"])
             if shape == "batchseq":
